@@ -97,6 +97,16 @@ def run(ctx):
     os.environ.pop('TSAN_OPTIONS', None)
     n_eval += len(tl)
     for x in tf: viol.append(dict(why='threaded encoder under ThreadSanitizer: %s' % ('data race' if x[2] == 66 else 'crash / watchdog, rc %s' % x[2]), line=(x[0] or '')[:3000], stderr=x[1][-2500:]))
+    # ---- AddressSanitizer build: re-initialisation with changed options (block size, preset) and early lzma_end
+    sa = compile_driver('san', 'drv_enc.c', 'drv_enc')
+    al = []
+    for _ in range(40 if ctx.quick() else 800):
+        d = bytes(rng.getrandbits(8) for _ in range(rng.choice([100, 9000, 20000, 40000])))
+        cfg = rng.choice([0, 1]) | (1 << 8) | (rng.randrange(0, 3) << 12) | (rng.choice([0, 1]) << 16) | (rng.choice([1, 2, 4, 8]) << 20) | rng.choice([1 << 29, 1 << 29, 1 << 28])
+        al.append('enc 1 %d %d %d - %s' % (cfg, rng.choice([0, 3]), rng.randrange(1 << 20), d.hex()))
+    aouts, af = run_lines(sa, al)
+    n_eval += len(al)
+    for x in af: viol.append(dict(why='threaded encoder under AddressSanitizer (re-initialisation / early end): crash or memory error, rc %s' % x[2], line=(x[0] or '')[:300000], stderr=x[1][-2500:]))
     # ---- flush / barrier histories on the threaded encoder under perturbation
     flines, fmeta = [], []
     for _ in range(40 if ctx.quick() else 800):
